@@ -49,6 +49,9 @@ func C14(c *Ctx) {
 	R17Severity(c)
 	R17LabelArity(c)
 	R18ErrDrop(c)
+	R18DiagsReachResult(c)
+	R17Extraneous(c)
+	R19NumberExact(c)
 }
 
 func C13(c *Ctx) {
@@ -321,6 +324,7 @@ func C18(c *Ctx) {
 	R19OpTable(c)
 	R19Climb(c)
 	R19Eval(c)
+	R19NumberExact(c)
 }
 
 func C20(c *Ctx) {
@@ -340,4 +344,13 @@ func C17(c *Ctx) {
 		}
 	}
 	R1Bounds(c, js, "-json", 8)
+	// the template parser builds its nodes from slices it has just filled: first/last element accesses
+	var tp []*ssa.Function
+	for _, fn := range c.P.ModuleFuncs(func(p string) bool { return p == PkgYaotl+"/hclsyntax" }) {
+		if fn.Blocks != nil && fn.Pos().IsValid() && strings.HasSuffix(c.P.Fset.Position(fn.Pos()).Filename, "/hclsyntax/parser_template.go") {
+			tp = append(tp, fn)
+		}
+	}
+	R1Bounds(c, tp, "-template", 8)
+	R21TemplateEnd(c)
 }
